@@ -202,8 +202,21 @@ def sendModel (a : ApiMethods) (boot : Int) (m : MResponse) (down : List Int) (v
     -- Merge: an error only when every part failed
     let allFailed := !rs.isEmpty && rs.all fun | .err _ => true | _ => false
     showSent rs (if allFailed then firstErr rs else none)
-  else if a.pkg == "describegroups" && splits then
+  else if a.group && splits then
+    -- describegroups (and every group request type that splits per group): one part per group
     let rs := coords.map fun co => sendOne a boot c down vt { coordinator := co }
+    showSent rs (firstErr rs)
+  else if a.pkg == "listgroups" && splits then
+    -- one part per broker of the layout (Go map order: the error reported is any part's)
+    let rs := c.brokers.map fun (k, _) => sendOne a boot c down vt { field := k }
+    showSent rs ((firstErr rs).map fun _ => "some")
+  else if a.pkg == "describeconfigs" && splits then
+    -- one part per broker resource, then one for all other resources
+    let brokerRs := q.info.resources.filter (·.1 == 4)
+    let rest := q.info.resources.filter (·.1 != 4)
+    let parts := brokerRs.map (fun r => ({ resources := [r] } : ReqInfo)) ++
+      (if rest.isEmpty then [] else [({ resources := rest } : ReqInfo)])
+    let rs := parts.map (sendOne a boot c down vt)
     showSent rs (firstErr rs)
   else
     let r := { q.info with coordinator := coords.headD (-1) }
@@ -254,7 +267,13 @@ def sendHolds (key : Nat) (split : Bool) (boot : Int) (m : MResponse) (down : Li
         if split then
           -- every requested partition with a live leader is asked at that leader
           let want := tps.filterMap fun (t, p) => match specLeader m t p with | some l => if live l then some l else none | none => none
-          (want.foldl (fun acc l => acc.bind (removeOne l)) (some (oks.map (·.1)))).isSome
+          -- … and nothing is sent to any other broker, except through the bootstrap connection for parts
+          -- the metadata designates no broker for (unknown topic / partition / leader)
+          match want.foldl (fun acc l => acc.bind (removeOne l)) (some (oks.map (·.1))) with
+          | some extra =>
+            let leaders := tps.filterMap fun (t, p) => specLeader m t p
+            extra.all fun b => b == boot || leaders.contains b
+          | none => false
         else
           match oks, err with
           | [(b, _, _)], none => tps.all fun (t, p) => specLeader m t p == some b
@@ -267,6 +286,8 @@ def sendHolds (key : Nat) (split : Bool) (boot : Int) (m : MResponse) (down : Li
                 | none => false)
           | _, _ => false
       | some .groupCoordinator | some .txnCoordinator =>
+        -- DescribeGroups is split per group; DeleteGroups documents the precondition that all its groups share the
+        -- first group's coordinator (Client.DeleteGroups doc comment), so only that one is demanded
         let want := if split then coords else [coords.headD (-1)]
         if want.any (· < 0) then true   -- the coordinator lookup failed: outside the property's hypothesis
         else if want.all live then err.isNone && sortBy (· < ·) (oks.map (·.1)) == sortBy (· < ·) want
